@@ -68,16 +68,20 @@ def fits : Kind → Val → Bool
   | .typedMap, .r _ => true
   | _, _ => false
 
+def checkEntry (ft : FieldTable) (e : String × Val) : Option SrcErr :=
+  match kindOfKey ft e.1 with
+  | none => some (.unknownKey e.1)
+  | some kind => if fits kind e.2 then none else some (.typeMismatch e.1)
+
 /-- strict decode of the merged keys into `Config` on top of the zero values -/
-def decode (ft : FieldTable) (merged : Cfg) : Except SrcErr Cfg := do
-  for (k, v) in merged do
-    match kindOfKey ft k with
-    | none => throw (.unknownKey k)
-    | some kind => if fits kind v then pure () else throw (.typeMismatch k)
-  pure (ft.filterMap (fun (k, kind) =>
-    match merged.get k with
-    | some v => some (k, v)
-    | none => (zeroOf kind).map (fun z => (k, z))))
+def decode (ft : FieldTable) (merged : Cfg) : Except SrcErr Cfg :=
+  match merged.findSome? (checkEntry ft) with
+  | some e => .error e
+  | none =>
+    .ok (ft.filterMap (fun (k, kind) =>
+      match merged.get k with
+      | some v => some (k, v)
+      | none => (zeroOf kind).map (fun z => (k, z))))
 
 def rootFromSources (ft : FieldTable) (env : List (String × String)) (file flags : Cfg) : Except SrcErr Cfg :=
   decode ft (overlay (overlay (overlay (defaultsCfg ft) (envLayer env)) file) flags)
